@@ -54,6 +54,12 @@ var fixedCases = []fixedCase{
 		txHex:    "010000000001013a308a97e2dc7add58dfb1504cfafbb05275b2b5bc2c782d4df4b99b8ee247800000000000ffffffff000300004651410416f3a08ffe85c2991515d279b13d79db94cd1543be08217f5ff1d0048b885b1d5f4fb1458c55dc8cb9adc544258e427572c89ed89967e05ba5c2c582c8b8e26551ae9100000000",
 		pkScript: "00202ed83921a419e8668e578bd0820a0c3f49874e9651ef547d98708048ec414739", modelValid: false,
 	},
+	{
+		// P2TR script path, leaf "1 CHECKSIGADD", witness ["", 01, leaf, control]: empty signature, 1-byte public key
+		sig: "tapscript-empty-sig-unknown-pubkey-not-discouraged", flags: "standard",
+		txHex:    "010000000001010b6df494dc3dcc2ac0e1b1415f0e786b9352b6c5e018a087f26eb48eb1a1d41d0000000000ffffffff00040001010251ba21c116f3a08ffe85c2991515d279b13d79db94cd1543be08217f5ff1d0048b885b1d00000000",
+		pkScript: "5120c50a5efd18e8115554795ece3b9435f801299839c4494dd82fd064ed08dd9ed8", modelValid: false,
+	},
 }
 
 func TestKnownFindingInputs(t *testing.T) {
